@@ -43,7 +43,7 @@ func (f tokFact) canBe(t int64) bool {
 	}
 	return f.excl&(1<<uint(t)) == 0
 }
-func (f tokFact) mustBe(t int64) bool { return f.known && f.tok == t }
+func (f tokFact) mustBe(t int64) bool  { return f.known && f.tok == t }
 func (f tokFact) with(t int64) tokFact { return tokFact{known: true, tok: t} }
 func (f tokFact) without(t int64) tokFact {
 	if f.known {
@@ -55,13 +55,13 @@ func (f tokFact) without(t int64) tokFact {
 
 // plSpec is the allowed event language.
 type plSpec struct {
-	name       string
-	start      int
-	accept     func(state int) bool
-	next       func(state int, ev string) (int, bool)
-	requireEOF bool // success returns need cur == tEOF
-	trackAppend bool // every E result must be appended before the next E / the success return
-	events     string // documentation
+	name        string
+	start       int
+	accept      func(state int) bool
+	next        func(state int, ev string) (int, bool)
+	requireEOF  bool   // success returns need cur == tEOF
+	trackAppend bool   // every E result must be appended before the next E / the success return
+	events      string // documentation
 }
 
 type plConfig struct {
@@ -113,15 +113,15 @@ type plFinding struct {
 }
 
 type plRun struct {
-	c        *Ctx
-	fn       *ssa.Function
-	spec     *plSpec
-	within   func(in ssa.Instruction) bool // limit to a clause (nil = whole function)
-	visited  map[plConfig]bool
-	findings []plFinding
-	undecided []plFinding
-	events   int
-	states   int
+	c              *Ctx
+	fn             *ssa.Function
+	spec           *plSpec
+	within         func(in ssa.Instruction) bool // limit to a clause (nil = whole function)
+	visited        map[plConfig]bool
+	findings       []plFinding
+	undecided      []plFinding
+	events         int
+	states         int
 	successReturns int
 	// inlined helper: where the caller continues (nil for the root run)
 	onReturn func(dfa int, fact tokFact, pending bool, trace []string, outcome int)
